@@ -91,6 +91,51 @@ def impl_msg(bs, res):
         return "err"
 
 
+def derived_objects(ctx, res):
+    """ids of objects the repository's own producers derive from other objects (built in memory, or obtained from bytes and so
+    carrying a cached id): the signed form of a transaction (wallet.sign_transaction), its signable equivalent, the signed form
+    signed again.  Whatever the provenance, the id is sha256d of the object's own encoding and a node decoding that encoding
+    knows it under the same id."""
+    from skepticoin.wallet import Wallet, sign_transaction
+    from skepticoin.datatypes import Transaction, Input, Output, OutputReference
+    from skepticoin.signing import SECP256k1PublicKey, SignableEquivalent
+    rng = ctx.rng
+    wallet = Wallet.empty()
+    wallet.generate_keys(4)
+    pubs = list(wallet.keypairs.keys())
+
+    def check(what, prov, t):
+        enc = t.serialize()
+        res.case(b"derived" + what.encode() + prov.encode() + enc)
+        res.count("derived:%s:%s" % (what, prov))
+        if t.hash() != sha256d(enc):
+            res.violations.append({"kind": "id of a derived transaction is not sha256d of its encoding", "object": what,
+                                   "provenance": prov, "id": t.hash().hex(), "expected": sha256d(enc).hex(),
+                                   "bytes": enc.hex()})
+            return
+        d = Transaction.deserialize(enc)
+        if d.hash() != t.hash():
+            res.violations.append({"kind": "the same transaction is known under two ids (producer vs. decoder of its bytes)",
+                                   "object": what, "provenance": prov, "id": t.hash().hex(), "decoded_id": d.hash().hex()})
+
+    for _ in range(ctx.scale(12, 120)):
+        utxo = {}
+        for _ in range(rng.randrange(1, 4)):
+            utxo[OutputReference(gens.rb(rng, 32), rng.randrange(0, 3))] = Output(rng.randrange(1, 10 ** 9),
+                                                                                 SECP256k1PublicKey(rng.choice(pubs)))
+        outs = [Output(rng.randrange(1, 10 ** 9), SECP256k1PublicKey(rng.choice(pubs))) for _ in range(rng.randrange(1, 3))]
+        unsigned = Transaction([Input(r, SignableEquivalent()) for r in utxo], outs)
+        for prov in ("memory", "decoded"):
+            t0 = unsigned if prov == "memory" else Transaction.deserialize(unsigned.serialize())
+            check("unsigned", prov, t0)
+            signed = sign_transaction(wallet, utxo, t0)
+            check("signed", prov, signed)
+            check("signable_equivalent", prov, (signed if prov == "memory" else Transaction.deserialize(signed.serialize()))
+                  .signable_equivalent())
+            again = sign_transaction(wallet, utxo, Transaction.deserialize(signed.serialize()))
+            check("signed_again", prov, again)
+
+
 def run(ctx):
     res = kit.Result()
     rng = ctx.rng
@@ -220,6 +265,7 @@ def run(ctx):
             impl.append(impl_msg(mm, res))
             res.evaluations += 1
 
+    derived_objects(ctx, res)
     model = ctx.driver.ask(ops)
     kit.compare(res, ops, impl, model)
     # ---- ids of what comes back from the store (freely built blocks the store can hold)
